@@ -9,6 +9,7 @@
    length and time of flight, agreement of the analytic and the numerical tracer.                                *)
 EXTENDS RaySymmetry
 
+CONSTANT Stretches
 VARIABLES e, ups, downs
 rvars == <<vars, e, ups, downs>>
 
@@ -20,7 +21,16 @@ ScaleUp == /\ e < 2
 ScaleDown == /\ e > -2
              /\ e' = e - 1 /\ downs' = downs + 1 /\ last' = [op |-> "ScaleDown"]
              /\ UNCHANGED <<base, src, dst, swapped, turns, shift, ups>>
-RNext == \/ (Swap /\ Keep) \/ (Turn /\ Keep) \/ (\E v \in Shifts : Shift(v) /\ Keep)
+(* the receiver moved horizontally by the lattice vector v: a new base configuration.  Between neighbouring configurations
+   Hamilton's relation holds for true rays: d(tof)/d(rho) = n sin(theta) / c -- the driver checks it with the mean of the
+   ray parameters before and after (this is "the launched ray arrives at the receiver" in differential form)        *)
+Stretch(v) == /\ ~swapped /\ turns = 0 /\ shift = <<0, 0>>
+              /\ base' = [src |-> base.src, dst |-> Add(base.dst, v)]
+              /\ dst' = Add(dst, v)
+              /\ last' = [op |-> "Stretch", v |-> v]
+              /\ UNCHANGED <<src, swapped, turns, shift>> /\ Keep
+RNext == \/ (\E v \in Stretches : Stretch(v))
+         \/ (Swap /\ Keep) \/ (Turn /\ Keep) \/ (\E v \in Shifts : Shift(v) /\ Keep)
          \/ ScaleUp \/ ScaleDown
 RSpec == RInit /\ [][RNext]_rvars
 RConsistent == Consistent /\ StratifiedInvariants /\ e = ups - downs
